@@ -4684,10 +4684,15 @@ impl<Front: SocketHandler> ConnectionH2<Front> {
                 incr!(names::h2::FRAMES_TX_GOAWAY);
                 // Stay in the current state so the connection can continue processing
                 // existing streams. The final GOAWAY will transition to GoAway state.
-                // Keep READABLE so in-flight request bodies can still be received
-                // during the drain window. Only remove READABLE in the final GOAWAY
-                // (via `goaway()`).
+                // In-flight request bodies and WINDOW_UPDATEs are still received
+                // during the drain window, but not before this frame has left:
+                // `zero` is also what frame headers are read into, and a read
+                // landing behind the unsent GOAWAY bytes garbles both. The
+                // zero-buffer resume stage of `writable` re-arms READABLE once the
+                // flush is complete; only the final GOAWAY (via `goaway()`) removes
+                // it for good.
                 self.expect_write = Some(H2StreamId::Zero);
+                self.readiness.interest.remove(Ready::READABLE);
                 self.readiness.arm_writable();
                 MuxResult::Continue
             }
